@@ -314,6 +314,54 @@ def variants(cc, entry):
     return out
 
 
+def combined_pin_sweep(seed):
+    """BOUNDED: a pinned bank code of combined width (bank + branch part, the documented way to pin both) appears
+    unchanged in the bank and branch fields, for every country that has both fields, with and without registry"""
+    import random
+    from schwifty import IBAN
+    from schwifty.exceptions import GenerateRandomOverflowError
+    from props.ibantasks import table
+    alpha = {"n": "0123456789", "a": "ABCDEFGHIJKLMNOPQRSTUVWXYZ", "c": "0123456789ABCDEFGHIJKLMNOPQRSTUVWXYZ"}
+    rnd = random.Random(seed + 29)
+    n = 0
+    for cc, s_ in sorted(table().items()):
+        pos = s_.get("positions", {})
+        b, r = pos.get("bank_code", [0, 0]), pos.get("branch_code", [0, 0])
+        if b[1] == b[0] or r[1] == r[0]:
+            continue
+        cl = CC.classes(s_["bban_spec"])
+        pin = "".join(rnd.choice(alpha[k]) for k in cl[b[0]:b[1]] + cl[r[0]:r[1]])
+        for reg in (False, True):
+            n += 1
+            try:
+                x = IBAN.random(cc, random=random.Random(seed + 3), use_registry=reg, bank_code=pin)
+            except GenerateRandomOverflowError:
+                continue
+            except Exception as ex:  # noqa: BLE001
+                return n, dict(country=cc, use_registry=reg, bank_code=pin, outcome=f"raises {type(ex).__name__}")
+            if x.bank_code != pin[: b[1] - b[0]] or x.branch_code != pin[b[1] - b[0]:]:
+                return n, dict(country=cc, use_registry=reg, bank_code=pin, outcome=str(x), bank_field=x.bank_code,
+                               branch_field=x.branch_code)
+    return n, None
+
+
+class CombinedPinReplay:
+    def native_agree(self, wit):
+        import random
+        from schwifty import IBAN
+        from props.ibantasks import table
+        pos = table()[wit["country"]]["positions"]
+        wb = pos["bank_code"][1] - pos["bank_code"][0]
+        try:
+            for sd in range(5):
+                x = IBAN.random(wit["country"], random=random.Random(sd), use_registry=wit["use_registry"], bank_code=wit["bank_code"])
+                if x.bank_code != wit["bank_code"][:wb] or x.branch_code != wit["bank_code"][wb:]:
+                    return False, f"{x!s}: bank {x.bank_code} branch {x.branch_code}", "both parts of the pin unchanged"
+        except Exception as ex:  # noqa: BLE001
+            return False, f"raises {type(ex).__name__}", "a valid IBAN with the pinned parts"
+        return True, "honoured", "honoured"
+
+
 def main(seed, tier):
     from props import common, ibantasks
     t0 = time.time()
@@ -349,6 +397,12 @@ def main(seed, tier):
                           status="discharged" if not diffs else "refuted", backend="cpython (4 fresh processes)", secs=0.0,
                           witness=diffs[0] if diffs else None,
                           detail="" if not diffs else f"replayed natively: {diffs[0]}"))
+    n_cp, cp_wit = combined_pin_sweep(seed)
+    results.append(dict(task="combined pin", functions={}, files={}, paths=0, error=None, spec=["props.c13", "CombinedPinReplay", []],
+                        obligations=[dict(name=f"a pinned bank code of combined (bank + branch) width appears unchanged in both "
+                                               f"fields ({n_cp} calls, every country with both fields, bounded)", kind="bounded",
+                                          status="discharged" if cp_wit is None else "refuted", backend="cpython", secs=0.0,
+                                          witness=cp_wit, detail="" if cp_wit is None else f"replayed natively: {cp_wit}")]))
     results.append(dict(task="determinism", obligations=extra, functions={}, files={}, paths=0, error=None,
                         spec=["props.c13", "HashSeedReplay", []]))
     return common.finish(
